@@ -2,7 +2,7 @@
 finite input classes; the value is stored iff the CiA 301 preconditions hold, a refused
 write stores nothing, the right communication record is consulted."""
 import itertools
-from canalyze.ir import walk, strip, const_eval, show, callee_name
+from canalyze.ir import is_pointer, walk, strip, const_eval, show, callee_name
 from canalyze.peval import PEval
 from canalyze.front import AnalysisBroken
 
@@ -17,7 +17,7 @@ def _run(m, fname, inputs):
     fn = m.funcs[fname]
     base = {}
     for prm in fn.params:
-        if (prm[2] or '').rstrip().endswith('*'):
+        if is_pointer(prm[2]):
             base[prm[0]] = 1
     base.update(inputs)
     return pe.run(base)
